@@ -157,6 +157,37 @@ void XMLGrammarPoolImpl::lockPool()
         {
             createXSModel();
         }
+        //  A locked pool is shared by the parsers of several threads: create now, while
+        //  still single-threaded, the content models that are otherwise created lazily on
+        //  first validation (two parsers reaching the same declaration at the same time
+        //  both ran makeContentModel on the shared object). Deserialized grammars already do this.
+        RefHashTableOfEnumerator<Grammar> grammarEnum(fGrammarRegistry, false, memMgr);
+        while (grammarEnum.hasMoreElements())
+        {
+            Grammar& grammar = grammarEnum.nextElement();
+            if (grammar.getGrammarType() == Grammar::SchemaGrammarType)
+            {
+                RefHashTableOf<ComplexTypeInfo>* types = ((SchemaGrammar&)grammar).getComplexTypeRegistry();
+                if (types)
+                {
+                    RefHashTableOfEnumerator<ComplexTypeInfo> typeEnum(types, false, memMgr);
+                    while (typeEnum.hasMoreElements())
+                        typeEnum.nextElement().getContentModel();
+                }
+            }
+            else if (grammar.getGrammarType() == Grammar::DTDGrammarType)
+            {
+                NameIdPoolEnumerator<DTDElementDecl> elemEnum = ((DTDGrammar&)grammar).getElemEnumerator();
+                while (elemEnum.hasMoreElements())
+                {
+                    // EMPTY and ANY have no content model (makeContentModel throws for them)
+                    DTDElementDecl& decl = elemEnum.nextElement();
+                    if (decl.getModelType() == DTDElementDecl::Mixed_Simple
+                     || decl.getModelType() == DTDElementDecl::Children)
+                        decl.getContentModel();
+                }
+            }
+        }
     }
 }
 
